@@ -198,18 +198,27 @@ Definition nx_ok (nx : option cp) (k m : nat) : Prop :=
 Definition reached (nx : option cp) (k m : nat) : bool :=
   match nx with Some (H, _) => (0 <? Z.of_nat m) && (Z.of_nat (k + m) =? H) | None => false end.
 
-Lemma hloop_linear nx : forall m k s rc fin, (k + m <= length C)%nat -> Good gid C k s -> nx_ok nx k m ->
+(* the headers of C never contradict a checkpoint list that is consistent with C *)
+Lemma no_contradiction cps x k : cps_ok gid C cps -> (k < length C)%nat ->
+  contradicts cps x (Z.of_nat (S k)) (s_id (nth k C dflt)) = false.
+Proof.
+  intros Hok Hk. destruct (contradicts cps x (Z.of_nat (S k)) (s_id (nth k C dflt))) eqn:E; [|reflexivity]. exfalso.
+  apply contradicts_spec in E. destruct E as (_ & c & Hc & Hh & Hn). destruct (Hok c Hc) as (i & Ei & Hi).
+  assert (i = S k) by lia. subst i. apply nth_error_nth with (d := 0%N) in Hi. rewrite (cids_nth gid C k Hk) in Hi. congruence.
+Qed.
+
+Lemma hloop_linear cps nx : cps_ok gid C cps -> forall m k s rc fin, (k + m <= length C)%nat -> Good gid C k s -> nx_ok nx k m ->
   exists s', Good gid C (k + m) s' /\
-    hloop f nx s rc fin (firstn m (skipn k C)) =
+    hloop f cps nx s rc fin (firstn m (skipn k C)) =
     HDone s' (rc || reached nx k m) (match m with O => fin | S _ => Some (nth (k + m) ci 0%N) end).
 Proof.
-  induction m as [|m IH]; intros k s rc fin Hkm HG Hnx.
+  intros Hok. induction m as [|m IH]; intros k s rc fin Hkm HG Hnx.
   - exists s. split; [rewrite Nat.add_0_r; exact HG|]. cbn [firstn hloop].
     assert (Er: reached nx k 0 = false) by (unfold reached; destruct nx as [[H c]|]; reflexivity).
     rewrite Er, orb_false_r. reflexivity.
   - assert (Hk: (k < length C)%nat) by lia.
     rewrite (skipn_nth_cons C k dflt Hk). cbn [firstn hloop].
-    destruct (good_add k s Hk HG) as (Ha & Hh & HG1). rewrite Ha. rewrite Hh.
+    destruct (good_add k s Hk HG) as (Ha & Hh & HG1). rewrite Ha. rewrite Hh. rewrite (no_contradiction cps Longest k Hok Hk).
     set (h := nth k C dflt) in *.
     assert (Eid: s_id h = nth (S k) ci 0%N) by (symmetry; apply cids_nth; exact Hk).
     destruct nx as [[H cid]|].
@@ -267,7 +276,7 @@ End Linear.
 (* ------------------------------------------------------------------------------------------- *)
 Lemma on_headers_done cfg st p c hs s' rc fh :
   aget p (d_states st) = Some c -> d_hfm st = true -> hs <> [] ->
-  hloop (c_forb cfg) (d_next st) (d_store st) false None hs = HDone s' rc (Some fh) ->
+  hloop (c_forb cfg) (sm_cps cfg) (d_next st) (d_store st) false None hs = HDone s' rc (Some fh) ->
   on_headers cfg st p hs =
   match (if rc then d_next st else None) with
   | Some (H, cid) =>
@@ -319,9 +328,9 @@ Proof. unfold least_above. intros H. apply find_some in H. destruct H as [Hin Hb
 (* ------------------------------------------------------------------------------------------- *)
 (* the checkpoint list the manager actually follows: none when checkpoints are disabled (SyncManager.New never sets
    nextCheckpoint then, and only handleHeadersMsg ever advances it) *)
-Definition eff_cps (cfg : dcfg) : list cp := if c_disable cfg then [] else c_cps cfg.
+Definition eff_cps (cfg : dcfg) : list cp := sm_cps cfg.      (* = SyncDefault.sm_cps: sm.checkpoints *)
 Lemma eff_cps_some cfg x c : least_above (eff_cps cfg) x = Some c -> eff_cps cfg = c_cps cfg.
-Proof. unfold eff_cps. destruct (c_disable cfg); [discriminate| reflexivity]. Qed.
+Proof. unfold eff_cps, sm_cps. destruct (c_disable cfg); [discriminate| reflexivity]. Qed.
 
 Section Catchup.
 Variables (cfg : dcfg) (gid : N) (C : list src) (p : N) (cap : nat) (res : list src).
@@ -431,7 +440,7 @@ Proof.
       exists n1. split; [reflexivity|]. unfold n1, n_with. cbn [n_chain n_reserve n_cap n_open n_stalled n_out].
       split; [exact Hch|]. split; [exact Hrs|]. split; [exact Hcp|]. split; [exact Hop|]. split; [exact Hns|]. reflexivity.
   - assert (Hlt: (k < length C)%nat) by lia. specialize (Hm1 Hlt).
-    destruct (hloop_linear (c_forb cfg) gid C HC nx m k (d_store st) false None Hkm HG Hnxok) as (s' & HG' & Eloop).
+    destruct (hloop_linear (c_forb cfg) gid C HC (sm_cps cfg) nx Hcps m k (d_store st) false None Hkm HG Hnxok) as (s' & HG' & Eloop).
     destruct m as [|m']; [lia|]. set (m := S m') in *. cbn [orb] in Eloop.
     assert (Hne: firstn m (skipn k C) <> []). { rewrite (skipn_nth_cons C k dflt Hlt). discriminate. }
     assert (Hstp: aget p (d_states st) = Some true) by (rewrite Hstates; cbn [aget]; rewrite N.eqb_refl; reflexivity).
@@ -557,7 +566,7 @@ Proof.
   intros Hk HG.
   destruct (good_tip gid C k s Hk HG) as (tip & t & _ & _ & _ & HtB & _ & Hth & _).
   assert (Eth: tip_height s = Z.of_nat k). { unfold tip_height. rewrite HtB. exact Hth. }
-  unfold d_init. rewrite Eth. unfold eff_cps in *. destruct (c_disable cfg).
+  unfold d_init. rewrite Eth. unfold eff_cps, sm_cps in *. destruct (c_disable cfg).
   - reflexivity.
   - rewrite (find_next_d_spec _ _ Hsorted). reflexivity.
 Qed.
@@ -727,7 +736,7 @@ Corollary catchup_linear_enabled cfg gid C p cap res k s hints fuel :
     (exists ev es st, t1 = [(ev, es, st)] /\ entry_ok p (EHeaders p [], es, st) /\ es <> []) /\
     Forall (entry_ok p) t2 /\ idle_ok cfg gid C p cap res y2.
 Proof.
-  intros Hd HC Hcps Hs. apply catchup_linear; auto; unfold eff_cps; rewrite Hd; assumption.
+  intros Hd HC Hcps Hs. apply catchup_linear; auto; unfold eff_cps, sm_cps; rewrite Hd; assumption.
 Qed.
 
 (* checkpoints disabled (p2p.disable_checkpoints = true): NO hypothesis on the configured list at all *)
@@ -742,7 +751,7 @@ Corollary catchup_linear_disabled cfg gid C p cap res k s hints fuel :
     (exists ev es st, t1 = [(ev, es, st)] /\ entry_ok p (EHeaders p [], es, st) /\ es <> []) /\
     Forall (entry_ok p) t2 /\ idle_ok cfg gid C p cap res y2.
 Proof.
-  intros Hd HC. apply catchup_linear; auto; unfold eff_cps; rewrite Hd; [intros c []| exact I].
+  intros Hd HC. apply catchup_linear; auto; unfold eff_cps, sm_cps; rewrite Hd; [intros c []| exact I].
 Qed.
 
 (* the hypotheses are satisfiable: chain 2 <- 3 <- 4 <- 5 <- 6 on genesis 1, checkpoints at 2 and 5, store = genesis + 2 *)
@@ -822,7 +831,7 @@ Proof. vm_compute. split; [reflexivity|]. split; [reflexivity|]. split; [reflexi
 Theorem contained_then_converges cfg st p c o pre h post s1 rc1 fin1 gid C q cap res k hints fuel :
   no_forb (c_forb cfg) (d_store st) ->
   aget p (d_states st) = Some c -> d_hfm st = true -> aget p (d_objs st) = Some o -> po_conn o = true ->
-  hloop (c_forb cfg) (d_next st) (d_store st) false None pre = HDone s1 rc1 fin1 ->
+  hloop (c_forb cfg) (sm_cps cfg) (d_next st) (d_store st) false None pre = HDone s1 rc1 fin1 ->
   memN (s_id h) (c_forb cfg) = true ->
   good_chain (c_forb cfg) gid C -> cps_ok gid C (eff_cps cfg) -> sorted (eff_cps cfg) ->
   (1 <= cap)%nat -> (k <= length C)%nat -> Good gid C k s1 -> (length C - k + 1 <= fuel)%nat ->
